@@ -241,6 +241,7 @@ NestSels ==
   ":not(&) .c" :> <<Then(One(WithPs(Cp("", {}, ""), <<Ps("not", <<One(AmpC)>>)>>)), " ", Cl("c"))>> @@
   "&#s,&.b" :> <<One(WithAmp(Id("s"))), One(WithAmp(Cl("b")))>> @@
   "&:where(.a,.c)" :> <<One(WithPs(AmpC, <<Ps("where", <<One(Cl("a")), One(Cl("c"))>>)>>))>> @@
+  ".c:is(&)" :> <<One(WithPs(Cl("c"), <<Ps("is", <<One(AmpC)>>)>>))>> @@
   "&" :> <<One(AmpC)>>
 
 \* selector list of a path element (level 1 = top-level vocabulary, deeper = nested vocabulary)
